@@ -26,6 +26,7 @@ CONSTANTS
   Weak_DecoderAcceptsBadCRC = FALSE
   Weak_PruneNewest = FALSE
   Weak_IndexWidth3Only = FALSE
+  Weak_RecordInTwoGroupWrites = FALSE
   WidthLimit = 1000
 INIT Init
 NEXT Next
